@@ -2,7 +2,7 @@
    header bytes are closed by evaluation over all 256 values, cursor arithmetic by lia
    (DESIGN.md section 6.5). *)
 Require Import BMA.lib.Base BMA.lib.Reflect BMA.gen.GenTypes BMA.gen.GenPure BMA.gen.GenMeta.
-From Coq Require Import Lia.
+From Coq Require Import Lia ZifyBool.
 Open Scope N_scope.
 
 (* ---- specification side: header classification and payload length per the datasheet ---- *)
@@ -63,26 +63,33 @@ Definition next_spec (it : FifoFrames) : FifoFrames * option Frame :=
       if N.ltb (len l) j then (mk_FifoFrames j l, None)
       else (mk_FifoFrames j l, Some (mk_Frame (firstn (N.to_nat (spec_payload h + 1)) (skipn (N.to_nat i) l)))).
 
+(* the refinement is proved by case analysis driven by the shape the generated function happens to have (guards, lets and
+   operand order may change): header facts are rewritten to the specification's atoms, every conditional of both sides is split,
+   inconsistent branches die by arithmetic, consistent ones agree up to arithmetic on the cursor *)
+Lemma hdr_has_data : forall h, h < 256 -> Header_has_data (hb h) = (is_data h && negb (N.eqb (axes h) 0))%bool.
+Proof. intros h H. finite_reflect. Qed.
+Ltac split_all := repeat match goal with
+  | |- context [if ?c then _ else _] => lazymatch c with context [if _ then _ else _] => fail | _ => idtac end; destruct c eqn:?
+  | |- context [match ?x with FrameType_Data => _ | _ => _ end] => is_var x; destruct x eqn:?
+  end.
+Ltac close_leaf := first [ reflexivity | exfalso; lia | exfalso; congruence | solve [repeat (f_equal; try lia)] ].
+
 Theorem next_refines : forall it, bytes_ok (FifoFrames_bytes it) -> FifoFrames_next it = Ok (next_spec it).
 Proof.
   intros [i l] Hb. unfold FifoFrames_next, next_spec.
-  cbv [FifoFrames_index FifoFrames_bytes set_FifoFrames_index].
-  destruct (N.leb (len l) i) eqn:E0; [reflexivity|].
-  apply N.leb_gt in E0.
-  rewrite (idx_nth l i E0). cbn [rbind].
-  pose proof (nth_bytes_ok l (N.to_nat i) Hb) as Hh.
-  set (h := nth (N.to_nat i) l 0) in *.
-  change (from_bits_truncate Header_ALL h) with (hb h).
-  rewrite (hdr_empty h Hh).
-  destruct (spec_empty h); [reflexivity|].
-  rewrite (hdr_payload h Hh). cbn [rbind].
-  destruct (N.ltb (len l) (i + (spec_payload h + 1))) eqn:E1; [reflexivity|].
-  apply N.ltb_ge in E1.
-  unfold slice_range.
-  assert (E2 : (N.leb i (i + (spec_payload h + 1)) && N.leb (i + (spec_payload h + 1)) (len l))%bool = true).
-  { apply andb_true_intro. split; apply N.leb_le; lia. }
-  rewrite E2. cbn [rbind].
-  replace (i + (spec_payload h + 1) - i) with (spec_payload h + 1) by lia. reflexivity.
+  cbv beta iota zeta delta [FifoFrames_index FifoFrames_bytes set_FifoFrames_index].
+  destruct (N.ltb_spec i (len l)) as [Hi|Hi].
+  - rewrite ?(idx_nth l i Hi). cbv beta iota zeta delta [rbind].
+    pose proof (nth_bytes_ok l (N.to_nat i) Hb) as Hh.
+    set (h := nth (N.to_nat i) l 0) in *.
+    change (from_bits_truncate Header_ALL h) with (hb h).
+    rewrite ?(hdr_has_data h Hh), ?(hdr_type h Hh), ?(hdr_payload h Hh). cbv beta iota zeta delta [rbind].
+    pose proof (payload_bounds h Hh) as Pb.
+    unfold spec_empty, is_data, is_ctrl, slice_range.
+    generalize dependent (spec_payload h). intros p Pb.
+    destruct (is_time h), (N.testbit h 6), (N.eqb (axes h) 0); cbn [negb andb orb]; cbv beta iota zeta delta [rbind];
+      split_all; cbv beta iota zeta delta [rbind]; close_leaf.
+  - split_all; close_leaf.
 Qed.
 
 (* ---- consequences used by C05 ---- *)
